@@ -201,7 +201,7 @@ def _scan_order(ctx, ck, fn, loop, rules, infos, pats) -> None:
     ck.floor('N7', checked, 20, 'documented patterns whose rule order was followed')
 
 
-def _normal_form_by_execution(ctx, ck, rules) -> bool:
+def _normal_form_by_execution(ctx, ck, rules, map_only: bool = False) -> bool:
     """N8: the n-ary part of the normal form, decided by executing the reduction driver abstractly (sa/axinterp.py) on chains of
     opaque operators no binary rule knows, identity operators and scalar operators with symbolic values - every arrangement
     of up to two scalars and one identity among up to three operators, square and rectangular: in what `apply` returns the
@@ -386,6 +386,9 @@ def _normal_form_by_execution(ctx, ck, rules) -> bool:
                     problems.append(f'{text}: everything cancels, but the result is {[o.cls.name for o in res]} instead of the identity on the input structure')
             elif [id(o) for o in res] != [id(o) for o in want]:
                 problems.append(f'{text}: expected {[o.attrs["name"] for o in want]}, got {[o.attrs.get("name", o.cls.name) for o in res]} (an operator next to its own lazy inverse must disappear, and the neighbours that meet must be examined again)')
+    if map_only:
+        # for "reduce never changes the map" only what changes the product matters, not the normal form
+        problems = [p_ for p_ in problems if not any(w in p_ for w in ('an identity factor is left', 'scalar factors are left', 'not on the side with fewer elements', 'does not reduce to the scalar alone'))]
     ck.expect('N8', not problems, fn, f'on all {nchains} chains of up to three opaque operators with up to two scalars and an identity (square, wide, tall) the driver returns the operators in order, '
               'no identity, one scalar = the product, on the side with fewer elements',
               f'{problems[0] if problems else ""} ({len(problems)} of {nchains} chains are not in normal form)', instance='normal form by execution', semantic=True)
@@ -666,7 +669,18 @@ def run(ctx, ck) -> None:
         if o.rule.endswith(('R-DRV', 'R-NARY')) and 'scalar product' not in o.construct:
             o.rule = f'{ck.pid}.N6'
             ck.obs.append(o)
-    ck.floor('N6', sum(1 for o in ck.obs if o.rule.endswith('N6')), 6, 'driver obligations (operands reduced first, n-ary rules before the scan)')
+    if n8_decided:
+        # the clauses on the written form of the n-ary rules (N3 placement, N6 / R-NARY shape of HomothetyRule.apply and
+        # IdentityRule.apply) describe one way of writing them; where they cannot follow the code, the abstract execution (N8) stands
+        kept = []
+        for o in ck.obs:
+            about_nary = o.rule.endswith(('N3', 'N6')) and any(w in o.construct for w in ('HomothetyRule.apply', 'IdentityRule.apply'))
+            if about_nary and o.status == 'incomplete':
+                ck.note(f'{o.rule} [{o.construct}] not decided structurally ({o.how[:100]}); superseded by N8')
+                continue
+            kept.append(o)
+        ck.obs[:] = kept
+    ck.floor('N6', sum(1 for o in ck.obs if o.rule.endswith('N6')), 4, 'driver obligations (operands reduced first, n-ary rules before the scan)')
 
 
 MUTATORS = {'add', 'append', 'extend', 'update', 'setdefault', 'pop', 'popitem', 'remove', 'discard', 'clear', 'insert', '__setitem__', 'appendleft'}
